@@ -158,6 +158,13 @@ READ_CASES = [
     ("#CRTFv0\ncircle[[0.5rad, -0.25rad], 2arcmin], coord=ICRS\nline[[10deg, -0.5deg], [11deg, +0.5deg]], coord=J2000\n",
      lambda rs: abs(rs[0].center.ra.rad - 0.5) < 1e-12 and abs(rs[0].center.dec.rad + 0.25) < 1e-12
      and abs(rs[0].radius.to_value(u.arcmin) - 2) < 1e-9 and abs(rs[1].start.dec.deg + 0.5) < 1e-12 and abs(rs[1].end.dec.deg - 0.5) < 1e-12),
+    # box[[corner], [opposite corner]]: any two opposite corners, in either order
+    ("#CRTFv0\nbox[[1pix, 2pix], [5pix, 8pix]], coord=image\nbox[[5pix, 8pix], [1pix, 2pix]], coord=image\nbox[[5pix, 2pix], [1pix, 8pix]], coord=image\n",
+     lambda rs: len(rs) == 3 and all(type(r).__name__ == 'RectanglePixelRegion' and r.center.x == 3 and r.center.y == 5
+                                     and r.width == 4 and r.height == 6 for r in rs)),
+    ("#CRTFv0\nbox[[12deg, 21deg], [10deg, 20deg]], coord=J2000\n",
+     lambda rs: type(rs[0]).__name__ == 'RectangleSkyRegion' and abs(rs[0].center.ra.deg - 11) < 1e-9 and abs(rs[0].center.dec.deg - 20.5) < 1e-9
+     and abs(rs[0].width.to_value(u.deg) - 2) < 1e-9 and abs(rs[0].height.to_value(u.deg) - 1) < 1e-9),
     ("#CRTFv0\ncircle[[10deg, 20deg], 3], coord=J2000\n", 'error'),        # lengths require units
     ("#CRTFv0\nhexagon[[10deg, 20deg], 3arcsec]\n", 'error'),
 ]
